@@ -3,6 +3,7 @@ package mon
 import (
 	"fmt"
 	"strings"
+	"verif/jsstr"
 
 	"github.com/xjslang/xjs/compiler"
 
@@ -18,14 +19,14 @@ type pos2 struct{ line, col int }
 
 func lexemeKey(kind reflex.Kind, text string) string {
 	if kind == reflex.Str && len(text) >= 2 {
-		return "str:" + text[1:len(text)-1] // quote style aside (G-syn strings have no escapes)
+		return "str:" + jsstr.Meaning(text[1:len(text)-1]) // quote style and escape spelling aside: the same value
 	}
 	return text
 }
 
 func genTokKey(t *gen.Tok) string {
 	if t.Kind == gen.TStr && len(t.Text) >= 2 {
-		return "str:" + t.Text[1:len(t.Text)-1]
+		return "str:" + jsstr.Meaning(t.Text[1:len(t.Text)-1])
 	}
 	return t.Text
 }
